@@ -38,7 +38,7 @@ def mkcg(rng, mem_total, tmp, reclaim, total_us):
 
 
 def cases(seed, tier):
-    n = 400 if tier == "quick" else 6000
+    n = 1200 if tier == "quick" else 6000
     rng = random.Random(seed * 1000003 + 18)
     for i in range(n):
         cid = "C18-%d-%d" % (seed, i)
